@@ -116,9 +116,25 @@ def h_save_over_leftovers(eng):
     eng.prove("save.completed_save_leaves_no_temporary_file", z3.BoolVal(not stale), stale=stale)
 
 
+def h_save_beside_a_concurrent_writer(eng):
+    """Two transfer_model calls on the same folder that both miss the cache both run save_model, interleaved arbitrarily.  Rely: every
+    file under a name both calls compute alike may be created, replaced or moved away by the other call at any moment.  (P) this
+    call's save_model still completes (it returns its own correctly compiled model) -- so it must not depend on a shared temporary
+    name surviving until it is moved into place."""
+    w = A.make_world(eng, with_db=False, minimal_env=True)
+    A.install(eng, w)
+    opts = VDict([("codegen", False), ("cache", True), ("library_folders", VList([])), ("expand_mx", True)])
+    model, objs = A.make_model(eng, {"states": 1, "der_states": 1})
+    rec = A.run_save(eng, w, model, opts, concurrent_writer=True)
+    eng.cover("save.twin")
+    eng.prove("save.completes_beside_a_concurrent_writer_of_the_same_model", z3.BoolVal(rec["raised"] is None), raised=rec["raised"], opened=rec["opened"],
+              replaced=rec["replaced"])
+
+
 HARNESSES = [("api.load_model/unloadable-cache-file", h_load_unloadable), ("api.transfer_model", h_transfer),
-             ("api.save_model over the leftovers of an interrupted save", h_save_over_leftovers)]
-EXPECTED_COVER = {"load.unloadable.raises", "transfer.returns", "save.done"}
+             ("api.save_model over the leftovers of an interrupted save", h_save_over_leftovers),
+             ("api.save_model beside a concurrent writer", h_save_beside_a_concurrent_writer)]
+EXPECTED_COVER = {"load.unloadable.raises", "transfer.returns", "save.done", "save.twin"}
 BOUNDED = True
 LEVEL = "proof"
 TRUSTED = ["pyvc VC generator", "z3 5.1.0",
@@ -128,7 +144,7 @@ TRUSTED = ["pyvc VC generator", "z3 5.1.0",
 ASSUMPTIONS = [
     "torn writes of the code-generated shared libraries are outside (the cache file is written after them)",
     "a RuntimeError from pickle.load that is not a CasADi deserialization error is re-raised by design (not caused by truncation)",
-    "two transfer_model calls interleaving are modelled only through what the reader can observe: an absent, incomplete or complete file",
+    "two interleaved transfer_model calls: the reader side through what it can observe (an absent, incomplete or complete file); the writer side by a rely condition (files under names both calls compute alike may appear, be replaced or vanish between any two operations); no scheduler is explored",
 ]
 EXPLANATION = "Exception-flow contract of load_model for every class of incomplete cache file, and of transfer_model for every outcome of load_model."
 MANIFEST = {
